@@ -1,6 +1,7 @@
 package readline
 
 import (
+	"github.com/reeflective/readline/internal/core"
 	"github.com/reeflective/readline/internal/keymap"
 	"github.com/reeflective/readline/internal/zzverif"
 )
@@ -8,7 +9,7 @@ import (
 // ZZ_C02_Typed: the user types n printable runes (as UTF-8) and Enter; Readline must
 // return exactly that text. params: mode (emacs|vi-insert), n, class (ascii|latin1|bmp|
 // astral|any), meta (default|sym: meta variables symbolic; utf8: convert-meta off,
-// input-meta/output-meta on)
+// input-meta/output-meta on), prev (optional: how an earlier call on the same shell ended)
 func ZZ_C02_Typed() {
 	mode := zzverif.Param("mode")
 	n := zzverif.ParamInt("n")
@@ -54,6 +55,18 @@ func ZZ_C02_Typed() {
 			rl.Keymap.SetMain(mode)
 		}
 		first = false
+	}
+	if prev := zzverif.Param("prev"); prev != "" {
+		// an earlier Readline call on the same shell: "x(" typed, then left by Enter, by
+		// Ctrl-C, or (empty line) by Ctrl-D; or a completion menu left open by Ctrl-C + Enter
+		ends := map[string]string{"enter": "x(\r", "abort": "x(\x03", "eof": "\x04", "tab": "x\t\t\r"}
+		firstCall := &zzverif.Script{Chunks: [][]byte{[]byte(ends[prev])}}
+		core.Stdin = firstCall
+		rl.Completer = func(line []rune, cursor int) Completions { return CompleteValues("xa", "xb") }
+		rl.Readline()
+		rl.Completer = nil
+		zzverif.Reach("first-call-returned")
+		core.Stdin = script
 	}
 	line, err := rl.Readline()
 	zzverif.Reach("returned")
